@@ -161,6 +161,13 @@ class Cmp:
         if v[0] == "prim":
             prims = [a for a in acts if a[0] == "prim"]
             ok = any(a[1] in WIRE_OK.get(v[1], {v[1]}) and a[2] == v[2] for a in prims)
+            if not ok and (v[2] is None or any(a[1] in WIRE_OK.get(v[1], {v[1]}) and a[2] is None for a in prims)
+                           or (not prims and not any(a[0] == "skip" for a in acts))):
+                # the value is written from / stored through something the extraction cannot name (a
+                # pointer selected earlier, a helper's out-parameter): undecided, not a disagreement
+                ctx.inconclusive("R5.agree", key + "|member", where,
+                                 "%s.%d: the member written/stored is not a direct struct member path" % (sname, fid))
+                return
             ctx.ob("R5.agree", key + "|member", where,
                    "%s.%d: writer emits %s as %s, parser stores the same member through a %s reader"
                    % (sname, fid, ".".join(v[2] or ("?",)), v[1], v[1]), ok,
@@ -278,7 +285,7 @@ def balance(ctx, fn, inc, dec, rule, key_prefix):
                 elif e.k == "ReturnStmt":
                     m = e.macro or ""
                     val = e.c[0] if e.c else None
-                    if m.startswith("VALIDATE") or (val is not None and val.cv not in (0, None)) or \
+                    if m or (val is not None and val.cv not in (0, None)) or \
                             (val is not None and val.cv is None and "status" in src(val)):
                         errexit = True
                     else:
@@ -325,7 +332,8 @@ def run(ctx):
         pf = P.inlined(P.fn(pn, PT), 3, pnames | set(tt.R_PRIM))
         W, probs = tt.extract_writer(P, wf, wnames)
         for msg, node in probs:
-            ctx.bad("R5.shape", "writer-shape|%s:%s|%s" % (PT, wn, msg.split(":")[0]), P.where(node), msg)
+            ctx.inconclusive("R5.shape", "writer-shape|%s:%s|%s" % (PT, wn, msg.split(":")[0]), P.where(node),
+                             "the writer's call sequence is not in a form the grammar extraction understands", msg)
         if W is None:
             raise AnalysisBroken("no struct found in writer " + wn)
         fix_shared_structs(W)
@@ -358,29 +366,86 @@ def run(ctx):
         c2.compare(sname, W, None, f.name, None)
         ctx.count("page_index_rows", c2.rows)
 
-    # ---- C13.4: thrift_skip covers every wire type
-    sk = None
-    for f in P.funcs_in(TD):
-        sws = find_switches(f)
-        if f.name.startswith("thrift_skip") and sws:
-            sk = (f, sws[0])
-    if sk is None:
-        raise AnalysisBroken("thrift_skip switch not found")
-    table, order = switch_table(sk[1])
+    # ---- C13.4: thrift_skip covers every wire type - by abstract execution of the skipper once per wire
+    # type value 0..15 (its readers hooked): each of the 13 value types is consumed by the reader calls the
+    # compact protocol prescribes, STOP and unknown type values set an error and consume nothing
+    from ..rules import sem
     tenum = P.enum("thrift_type")
     for name, val in sorted(tenum.items(), key=lambda kv: kv[1]):
         spec_name = name.replace("THRIFT_TYPE_", "")
-        ctx.ob("R5.spec", "wire-type|%s" % name, P.rel(sk[0].file),
+        ctx.ob("R5.spec", "wire-type|%s" % name, TD,
                "compact-protocol type id of %s is %s" % (name, COMPACT_TYPES.get(spec_name)),
                COMPACT_TYPES.get(spec_name) == val, "carquet uses %d" % val)
-        if name == "THRIFT_TYPE_STOP":
+    sk = None
+    for cand in ("thrift_skip_at_depth", "thrift_skip"):
+        if P.fn_opt(cand, TD) is not None:
+            sk = P.fn(cand, TD)
+            break
+    if sk is None:
+        raise AnalysisBroken("thrift_skip not found")
+    do_ = sem.field_offsets(P, "thrift_decoder")
+    T_ = COMPACT_TYPES
+    want = {"TRUE": [], "FALSE": [], "BYTE": [("bytes", 1)], "I16": ["varint"], "I32": ["varint"], "I64": ["varint"],
+            "DOUBLE": [("bytes", 8)], "BINARY": ["binary"], "UUID": [("bytes", 16)],
+            "LIST": ["list", "varint"], "SET": ["list", "varint"], "MAP": ["map", "varint", "varint"],
+            "STRUCT": ["sbegin", "field", ("bytes", 1), "field", "send"]}
+    byval = {v: k for k, v in T_.items()}
+    for val in range(0, 16):
+        tname = byval.get(val)
+        key = "skip-arm|%s:%s|%s" % (TD, sk.name, "THRIFT_TYPE_" + tname if tname else "value %d" % val)
+        state = {"fields": 0}
+
+        def h_field(ev, a, it, state=state):
+            ev.append("field")
+            state["fields"] += 1
+            if state["fields"] == 1:
+                sem.set_out(it, a[1], T_["BYTE"])
+                sem.set_out(it, a[2], 1)
+                return 1
+            sem.set_out(it, a[1], 0)
+            return 0
+
+        def h_list(ev, a, it):
+            ev.append("list")
+            sem.set_out(it, a[1], T_["I32"])
+            sem.set_out(it, a[2], 1)
+            return 0
+
+        def h_map(ev, a, it):
+            ev.append("map")
+            sem.set_out(it, a[1], T_["I32"])
+            sem.set_out(it, a[2], T_["I64"])
+            sem.set_out(it, a[3], 1)
+            return 0
+        hooks = {"set_error": lambda ev, a, it: ev.append("error") or 0,
+                 "carquet_buffer_reader_skip": lambda ev, a, it: ev.append(("bytes", a[1])) or 1,
+                 "thrift_read_varint": lambda ev, a, it: ev.append("varint") or 0,
+                 "thrift_read_zigzag": lambda ev, a, it: ev.append("varint") or 0,
+                 "thrift_read_i16": lambda ev, a, it: ev.append("varint") or 0,
+                 "thrift_read_i32": lambda ev, a, it: ev.append("varint") or 0,
+                 "thrift_read_i64": lambda ev, a, it: ev.append("varint") or 0,
+                 "thrift_read_byte": lambda ev, a, it: ev.append(("bytes", 1)) or 0,
+                 "thrift_read_double": lambda ev, a, it: ev.append(("bytes", 8)) or 0,
+                 "thrift_read_binary": lambda ev, a, it: ev.append("binary") or sem.Ptr("bin", 0, 1),
+                 "thrift_read_uuid": lambda ev, a, it: ev.append(("bytes", 16)) or 0,
+                 "thrift_read_list_begin": h_list, "thrift_read_set_begin": h_list, "thrift_read_map_begin": h_map,
+                 "thrift_read_struct_begin": lambda ev, a, it: ev.append("sbegin") or 0,
+                 "thrift_read_struct_end": lambda ev, a, it: ev.append("send") or 0,
+                 "thrift_read_field_begin": h_field}
+        args = [sem.Ptr("dec", 0, 1), val] + ([0] if len(sk.params) > 2 else [])
+        try:
+            ret, ev, heap = sem.run(P, sk, args, heap0={("dec", do_["status"]): 0}, hooks=hooks, max_forks=8)
+        except sem.Inconclusive as ex:
+            ctx.inconclusive("R5.exhaustive", key, P.where(sk.body), "abstract execution of the skipper", str(ex))
             continue
-        ctx.ob("R5.exhaustive", "skip-arm|%s:%s|%s" % (TD, sk[0].name, name), P.where(sk[1]),
-               "thrift_skip has an arm for wire type %s" % name, name in table or val in table)
-    ctx.ob("R5.exhaustive", "skip-default|%s:%s" % (TD, sk[0].name), P.where(sk[1]),
-           "thrift_skip rejects unknown wire types (default arm sets an error)",
-           "default" in table and any(c.callee == "set_error" for s in table["default"] for c in s.walk()
-                                      if c.k == "CallExpr"))
+        if tname in want:
+            ctx.ob("R5.exhaustive", key, P.where(sk.body),
+                   "skipping a %s value consumes %s and raises no error" % (tname, want[tname] or "nothing"),
+                   ev == want[tname], "skipper does %s" % ev)
+        else:
+            ctx.ob("R5.exhaustive", key, P.where(sk.body),
+                   "type value %d (%s) is not a value type: the skipper sets an error and consumes nothing" % (val, tname or "unassigned"),
+                   ev == ["error"], "skipper does %s" % ev)
 
     # ---- C13.3 struct begin/end balance
     nb = 0
@@ -431,16 +496,37 @@ def run(ctx):
                         "no dominating %s, and %s is not a static helper called from a framed context" % (begin, f.name))
     ctx.floor("C13 field headers inside frames", nfr, 25)
 
-    # ---- C13.3 field-id delta state
+    # ---- short/long forms and the field-id delta state, decided by abstract execution of the four
+    # header codecs; the syntactic must-pass rule below only runs for a codec the execution left undecided
+    decided = _forms(ctx)
+
+    # ---- C13.3 field-id delta state (fallback)
     for fname, file_, rec in (("thrift_read_field_begin", TD, "thrift_decoder"),
                               ("thrift_write_field_header", TE, "thrift_encoder")):
+        if fname in decided:
+            continue
         f = P.fn(fname, file_)
 
-        def is_store(e):
+        slot_ptrs = set()
+        for n_ in f.body.walk():
+            if n_.k == "DeclStmt":
+                for d_, init in zip(n_.get("decls", []), n_.c):
+                    if init is not None and "*" in (d_.get("t") or "") and any(
+                            x.k == "MemberExpr" and x.name == "last_field_id" for x in init.walk()):
+                        slot_ptrs.add(d_["d"])
+            elif is_assign(n_) and n_.c[0].strip().k == "DeclRefExpr" and any(
+                    x.k == "MemberExpr" and x.name == "last_field_id" for x in n_.c[1].walk()) and "*" in (n_.c[0].t or ""):
+                slot_ptrs.add(n_.c[0].strip().get("d"))
+
+        def is_store(e, slot_ptrs=slot_ptrs):
             if is_assign(e) and e.op == "=":
                 l = e.c[0].strip()
-                return l.k == "ArraySubscriptExpr" and any(
-                    x.k == "MemberExpr" and x.name == "last_field_id" for x in l.walk())
+                if l.k == "ArraySubscriptExpr" and any(x.k == "MemberExpr" and x.name == "last_field_id" for x in l.walk()):
+                    return True
+                # `*slot = id` through a local pointer to the current frame's slot
+                if l.k == "UnaryOperator" and l.op == "*" and l.c[0].strip_casts().k == "DeclRefExpr" and \
+                        l.c[0].strip_casts().get("d") in slot_ptrs:
+                    return True
             return False
 
         def cut(B, si):
@@ -496,9 +582,6 @@ def run(ctx):
            "struct end writes the STOP byte", any(
                c.callee in ("thrift_write_field_stop",) or (c.callee == "thrift_write_byte" and c.args()[1].cv == 0)
                for c in wse.calls()))
-
-    # ---- short/long forms
-    _forms(ctx)
 
     # ---- zigzag on both sides
     for n in ("i16", "i32", "i64"):
@@ -590,7 +673,9 @@ def _forms(ctx):
     except (Budget, Stop) as ex:
         ctx.inconclusive("R5.forms", "short-form|%s:thrift_write_field_header" % TE, P.where(f.body), "abstract execution", str(ex))
         bad = "?"
+    decided = set()
     if bad != "?":
+        decided.add("thrift_write_field_header")
         ctx.ob("R5.forms", "short-form|%s:thrift_write_field_header" % TE, P.where(f.body),
                "field header: one byte (delta<<4|type) iff 0 < delta <= 15, else type byte + zigzag id; the id becomes the "
                "previous id (all deltas -20..40)", bad is None, bad or "")
@@ -618,6 +703,7 @@ def _forms(ctx):
         ctx.inconclusive("R5.forms", "long-form|%s:thrift_read_field_begin" % TD, P.where(g.body), "abstract execution", str(ex))
         bad = "?"
     if bad != "?":
+        decided.add("thrift_read_field_begin")
         ctx.ob("R5.forms", "long-form|%s:thrift_read_field_begin" % TD, P.where(g.body),
                "field header decoding for all 256 header bytes: STOP on 0, type = low nibble, id = previous + delta, or an "
                "explicit zigzag id iff the delta nibble is 0; the id becomes the previous id", bad is None, bad or "")
@@ -663,6 +749,7 @@ def _forms(ctx):
         ctx.ob("R5.forms", "list-long-form|%s:thrift_read_list_begin" % TD, P.where(g.body),
                "list header decoding for all 256 header bytes: type = low nibble, count = high nibble, or a varint iff "
                "the nibble is 0xF", bad is None, bad or "")
+    return decided
 
 
 def _nocast(t):
